@@ -96,7 +96,16 @@ def strategy(tier):
     return _cases()
 
 
+def _complete_introspection_with_errors():
+    from graphql import get_introspection_query, graphql_sync
+
+    data = graphql_sync(build_schema("type Query { a: Int }"), get_introspection_query(descriptions=False)).data
+    return json.dumps({"data": data, "errors": [{"message": "partial failure"}]}).encode()
+
+
 FAULTS = [
+    # errors next to a COMPLETE introspection result: ignoring the errors would generate a client quietly
+    ("errors_with_complete_data", _complete_introspection_with_errors()),
     ("invalid_url", None), ("status_301", 301), ("status_400", 400), ("status_401", 401),
     ("status_500", 500), ("non_json", b"<html>"), ("json_array", b"[1]"), ("json_string", b'"x"'), ("no_data_key", b'{"foo": 1}'),
     ("errors_present", b'{"data": {"__schema": null}, "errors": [{"message": "nope"}]}'), ("data_null", b'{"data": null}'),
